@@ -93,6 +93,10 @@ type Config struct {
 	fieldsAlloc [4][]fieldPart
 
 	ifs string
+
+	// arithmDepth is the nesting of variable values being evaluated
+	// as arithmetic expressions; see [Config.arithmValue].
+	arithmDepth int
 	// A pointer to a parameter expansion node, if we're inside one.
 	// Necessary for ${LINENO}.
 	curParam *syntax.ParamExp
